@@ -4,7 +4,10 @@
                              update <path> <type> <old> <delta>    -> val N | range | other     (Mech: mech_elem1_update)
                              spec   <type> <value>                 -> val N | range | other     (Spec: Lang.Sem.coerce)
                            path := decl|assign|compound|arg|global-scalar|static|incdec-var|incdec-elem1|return|return-from-elemN|elem1|
-                                   elem1-compound|elemN|lit1|litN|global-arr|assign-from-elemN
+                                   elem1-compound|elemN|lit1|litN|global-arr|assign-from-elemN|assign-call|decl-call|decl-typedef|
+                                   decl-typedef-ternary|const-global|static-assign|elem1-global|arrlit-assign1|arrlit-assignN|arr-copy|
+                                   assign-hint:H|decl-multi:H      H := none|ptr|tiny|short|int|long|char|bool (the type hint handed to
+                                   VariableManager::assign_variable)
                            type := tiny|short|int|long|char|bool|utiny|ushort|uint|ulong|uchar
    Whole programs are run by bin/lang_model (ocaml/lang_driver.ml). *)
 open C04_model
@@ -33,7 +36,21 @@ let ty_of s =
   | "uchar" -> mk TChar true
   | _ -> failwith ("type " ^ s)
 
-let path_of = function
+let hint_of = function
+  | "none" -> HNone | "ptr" -> HPointer
+  | "tiny" -> HTy TTiny | "short" -> HTy TShort | "int" -> HTy TInt | "long" -> HTy TLong | "char" -> HTy TChar | "bool" -> HTy TBool
+  | s -> failwith ("hint " ^ s)
+
+let rec path_of = function
+  | s when String.contains s ':' ->
+      let i = String.index s ':' in
+      let h = hint_of (String.sub s (i + 1) (String.length s - i - 1)) in
+      (match String.sub s 0 i with
+       | "assign-hint" -> PAssignHint h | "decl-multi" -> PDeclMulti h
+       | q -> failwith ("hinted path " ^ q))
+  | "assign-call" -> PAssignCall | "decl-call" -> PDeclCall | "decl-typedef" -> PDeclTypedef
+  | "decl-typedef-ternary" -> PDeclTypedefTernary | "const-global" -> PConstGlobal | "static-assign" -> PStaticAssign
+  | "elem1-global" -> PElem1Global | "arrlit-assign1" -> PArrLitAssign1 | "arrlit-assignN" -> PArrLitAssignN | "arr-copy" -> PArrCopy
   | "decl" -> PDecl | "assign" -> PAssign | "compound" -> PCompound | "arg" -> PArg | "global-scalar" -> PGlobalScalar
   | "static" -> PStatic | "incdec-var" -> PIncDecVar | "incdec-elem1" -> PIncDecElem1 | "return" -> PReturn
   | "return-from-elemN" -> PReturnElemN
